@@ -52,7 +52,7 @@ EntryCase(sl, oo, i) ==
 
 Case(b, sl, oo) ==
   [by       |-> b,
-   sub      |-> oo.sub = "sub",
+   sub      |-> InSub(oo.sub),
    variant  |-> oo.sub,
    slots    |-> sl,
    script   |-> oo.script,
